@@ -88,11 +88,23 @@ impl Heartbeat {
         if covered_end { m.or(Some(0.0)) } else { None }
     }
     fn overall(&self) -> f64 {
-        self.samples.lock().unwrap().iter().map(|x| x.1).fold(0.0, f64::max)
+        self.samples
+            .lock()
+            .unwrap()
+            .iter()
+            .map(|x| x.1)
+            .fold(0.0, f64::max)
     }
     /// the longest stretch of [a, b] in which no heartbeat completed
     fn longest_silence(&self, a: Instant, b: Instant) -> f64 {
-        let mut ts: Vec<Instant> = self.samples.lock().unwrap().iter().map(|x| x.0).filter(|t| *t >= a && *t <= b).collect();
+        let mut ts: Vec<Instant> = self
+            .samples
+            .lock()
+            .unwrap()
+            .iter()
+            .map(|x| x.0)
+            .filter(|t| *t >= a && *t <= b)
+            .collect();
         ts.sort();
         let mut prev = a;
         let mut m = 0.0f64;
@@ -118,7 +130,11 @@ struct Ctx {
 impl Ctx {
     /// responsiveness of both sides in [a, b]; None = not proven
     fn lag(&self, a: Instant, b: Instant) -> Option<f64> {
-        Some(self.hb_daemon.max_lag(a, b)?.max(self.hb_harness.max_lag(a, b)?))
+        Some(
+            self.hb_daemon
+                .max_lag(a, b)?
+                .max(self.hb_harness.max_lag(a, b)?),
+        )
     }
 }
 
@@ -170,7 +186,11 @@ fn make_plan(rng: &mut Rng, id: u64, thorough: bool) -> Plan {
         _ => (*rng.pick(&LOCAL_HOLDS), *rng.pick(&REMOTE_HOLDS)),
     };
     let h = negotiated(local, remote) as u64 * 1000;
-    let role = if rng.bool() { Role::Active } else { Role::Passive };
+    let role = if rng.bool() {
+        Role::Active
+    } else {
+        Role::Passive
+    };
     let blind = rng.chance(1, 2);
     let start_ms = rng.range(0, 2500);
     let mut sends = vec![(0, Msg::Open)];
@@ -181,7 +201,14 @@ fn make_plan(rng: &mut Rng, id: u64, thorough: bool) -> Plan {
         let mut t = first;
         for _ in 0..rng.usize(4) {
             t += rng.range(300, 3000);
-            sends.push((t, if rng.chance(1, 3) { Msg::Update } else { Msg::Keepalive }));
+            sends.push((
+                t,
+                if rng.chance(1, 3) {
+                    Msg::Update
+                } else {
+                    Msg::Keepalive
+                },
+            ));
         }
         return Plan {
             id,
@@ -199,7 +226,11 @@ fn make_plan(rng: &mut Rng, id: u64, thorough: bool) -> Plan {
     let space_max = h - MARGIN_MS.max(h * 2 / 5);
     let kept_alive = rng.chance(3, 5);
     // the first KEEPALIVE may come well after the OPEN
-    let first = if rng.chance(1, 2) { rng.range(0, 200) } else { rng.range(space_max / 2, space_max) };
+    let first = if rng.chance(1, 2) {
+        rng.range(0, 200)
+    } else {
+        rng.range(space_max / 2, space_max)
+    };
     sends.push((first, Msg::Keepalive));
     let class;
     if kept_alive {
@@ -209,7 +240,14 @@ fn make_plan(rng: &mut Rng, id: u64, thorough: bool) -> Plan {
         let mut t = first;
         while t < until {
             t += rng.range(space_max * 3 / 4, space_max);
-            sends.push((t, if rng.chance(1, 3) { Msg::Update } else { Msg::Keepalive }));
+            sends.push((
+                t,
+                if rng.chance(1, 3) {
+                    Msg::Update
+                } else {
+                    Msg::Keepalive
+                },
+            ));
         }
     } else {
         class = "silence";
@@ -316,7 +354,8 @@ fn new_global(local_hold: u16) -> Result<GlobalHandle, String> {
         bind_interface: None,
         export_policy: None,
     };
-    g.add_peer(params, None).map_err(|e| format!("add_peer: {}", e))?;
+    g.add_peer(params, None)
+        .map_err(|e| format!("add_peer: {}", e))?;
     Ok(Arc::new(tokio::sync::RwLock::new(g)))
 }
 
@@ -482,7 +521,9 @@ async fn session(plan: Plan, late_quick: bool, daemon: tokio::runtime::Handle) -
         if t0.is_none() {
             wake = wake.min(now + Duration::from_millis(500));
         }
-        let wait = wake.saturating_duration_since(now).max(Duration::from_millis(1));
+        let wait = wake
+            .saturating_duration_since(now)
+            .max(Duration::from_millis(1));
         match tokio::time::timeout(wait, client.read_buf(&mut rx)).await {
             Err(_) => {}
             Ok(Ok(0)) => {
@@ -506,7 +547,9 @@ async fn session(plan: Plan, late_quick: bool, daemon: tokio::runtime::Handle) -
                     }
                     bgp::ParsedMessage::Keepalive => Seen::Keepalive,
                     bgp::ParsedMessage::Update(_) => Seen::Update,
-                    bgp::ParsedMessage::Notification(n) => Seen::Notification(n.notification_code(), n.notification_subcode()),
+                    bgp::ParsedMessage::Notification(n) => {
+                        Seen::Notification(n.notification_code(), n.notification_subcode())
+                    }
                     _ => continue,
                 }),
                 Ok(None) => break,
@@ -635,9 +678,17 @@ fn make_coll_plan(rng: &mut Rng, id: u64) -> CollPlan {
         id,
         local: *rng.pick(&[3u16, 4, 6, 9]),
         remote: *rng.pick(&[3u16, 5]),
-        first_role: if rng.bool() { Role::Active } else { Role::Passive },
+        first_role: if rng.bool() {
+            Role::Active
+        } else {
+            Role::Passive
+        },
         // local identifier is 10.0.0.1
-        remote_id: if rng.bool() { u32::from(Ipv4Addr::new(10, 0, 0, 2)) } else { u32::from(Ipv4Addr::new(9, 0, 0, 9)) },
+        remote_id: if rng.bool() {
+            u32::from(Ipv4Addr::new(10, 0, 0, 2))
+        } else {
+            u32::from(Ipv4Addr::new(9, 0, 0, 9))
+        },
         keepalive_after: rng.chance(1, 3),
         start_ms: rng.range(0, 2500),
     }
@@ -651,7 +702,9 @@ fn spawn_daemon_side(
     role: Role,
 ) -> tokio::task::JoinHandle<()> {
     daemon.spawn(async move {
-        let Ok(server) = TcpStream::from_std(server) else { return };
+        let Ok(server) = TcpStream::from_std(server) else {
+            return;
+        };
         if let Some(sess) = accept_connection(&global, &tables, server, role).await {
             let (active_tx, _active_rx) = mpsc::unbounded_channel::<TcpStream>();
             sess.run(Arc::clone(&global), active_tx).await;
@@ -661,7 +714,11 @@ fn spawn_daemon_side(
 
 /// Two connections of one neighbour collide; the survivor's timers are then watched.
 /// Returns the survivor's history in the shape `judge` understands, and counters.
-async fn collision_session(plan: CollPlan, late_quick: bool, daemon: tokio::runtime::Handle) -> (Outcome, Vec<&'static str>) {
+async fn collision_session(
+    plan: CollPlan,
+    late_quick: bool,
+    daemon: tokio::runtime::Handle,
+) -> (Outcome, Vec<&'static str>) {
     let t_start = Instant::now();
     let mut counts: Vec<&'static str> = Vec::new();
     let as_plan = |role: Role, class: &'static str| Plan {
@@ -694,7 +751,11 @@ async fn collision_session(plan: CollPlan, late_quick: bool, daemon: tokio::runt
         }
     };
     let tables: TableHandle = Arc::new(TableManager::new(1));
-    let second_role = if plan.first_role == Role::Active { Role::Passive } else { Role::Active };
+    let second_role = if plan.first_role == Role::Active {
+        Role::Passive
+    } else {
+        Role::Active
+    };
     let mut ends: Vec<RemoteEnd> = Vec::new();
     let mut tasks = Vec::new();
     let mut servers = Vec::new();
@@ -728,7 +789,10 @@ async fn collision_session(plan: CollPlan, late_quick: bool, daemon: tokio::runt
                     break true;
                 }
                 if Instant::now() > setup {
-                    out.aborted = Some(format!("collision set-up: {} did not happen within 40 s", $what));
+                    out.aborted = Some(format!(
+                        "collision set-up: {} did not happen within 40 s",
+                        $what
+                    ));
                     break false;
                 }
                 poll_both(&mut first, &mut second, Duration::from_millis(200)).await;
@@ -736,20 +800,44 @@ async fn collision_session(plan: CollPlan, late_quick: bool, daemon: tokio::runt
         };
     }
     // first connection up to OpenConfirm (the remote end has read the KEEPALIVE that answers its OPEN)
-    tasks.push(spawn_daemon_side(&daemon, Arc::clone(&global), Arc::clone(&tables), s1, plan.first_role));
-    let mut ok = wait_for!(first.saw(|s| matches!(s, Seen::Open(_))) || first.ended, "the daemon's OPEN on the first connection");
+    tasks.push(spawn_daemon_side(
+        &daemon,
+        Arc::clone(&global),
+        Arc::clone(&tables),
+        s1,
+        plan.first_role,
+    ));
+    let mut ok = wait_for!(
+        first.saw(|s| matches!(s, Seen::Open(_))) || first.ended,
+        "the daemon's OPEN on the first connection"
+    );
     if ok {
         first.send(Msg::Open, plan.remote, plan.remote_id).await;
-        ok = wait_for!(first.saw(|s| *s == Seen::Keepalive) || first.ended, "OpenConfirm of the first connection");
+        ok = wait_for!(
+            first.saw(|s| *s == Seen::Keepalive) || first.ended,
+            "OpenConfirm of the first connection"
+        );
     }
     // second connection: its OPEN makes the collision
     if ok {
-        tasks.push(spawn_daemon_side(&daemon, Arc::clone(&global), Arc::clone(&tables), s2, second_role));
-        ok = wait_for!(second.saw(|s| matches!(s, Seen::Open(_))) || second.ended, "the daemon's OPEN on the second connection");
+        tasks.push(spawn_daemon_side(
+            &daemon,
+            Arc::clone(&global),
+            Arc::clone(&tables),
+            s2,
+            second_role,
+        ));
+        ok = wait_for!(
+            second.saw(|s| matches!(s, Seen::Open(_))) || second.ended,
+            "the daemon's OPEN on the second connection"
+        );
     }
     if ok {
         second.send(Msg::Open, plan.remote, plan.remote_id).await;
-        ok = wait_for!(first.ended || second.ended, "the collision to be resolved (one side closed)");
+        ok = wait_for!(
+            first.ended || second.ended,
+            "the collision to be resolved (one side closed)"
+        );
     }
     if ok && first.ended && second.ended {
         // give the other end a moment: both gone is not what this scenario is about (C07's business)
@@ -758,12 +846,27 @@ async fn collision_session(plan: CollPlan, late_quick: bool, daemon: tokio::runt
     }
     if ok {
         let second_won = first.ended;
-        counts.push(if second_won { "real:collision:second-to-open-confirm-won" } else { "real:collision:second-to-open-confirm-lost" });
-        let (surv, loser, srole) = if second_won { (&mut second, &first, second_role) } else { (&mut first, &second, plan.first_role) };
+        counts.push(if second_won {
+            "real:collision:second-to-open-confirm-won"
+        } else {
+            "real:collision:second-to-open-confirm-lost"
+        });
+        let (surv, loser, srole) = if second_won {
+            (&mut second, &first, second_role)
+        } else {
+            (&mut first, &second, plan.first_role)
+        };
         if loser.saw(|s| *s == Seen::Notification(6, 7)) {
             counts.push("real:collision:loser-read-cease");
         }
-        out.plan = as_plan(srole, if plan.keepalive_after { "collision-survivor-keepalive" } else { "collision-survivor-silent" });
+        out.plan = as_plan(
+            srole,
+            if plan.keepalive_after {
+                "collision-survivor-keepalive"
+            } else {
+                "collision-survivor-silent"
+            },
+        );
         out.accepted = true;
         if plan.keepalive_after {
             surv.send(Msg::Keepalive, plan.remote, plan.remote_id).await;
@@ -779,7 +882,9 @@ async fn collision_session(plan: CollPlan, late_quick: bool, daemon: tokio::runt
                 out.waited_until = Some(now);
                 break;
             }
-            let wait = until.saturating_duration_since(now).min(Duration::from_millis(500));
+            let wait = until
+                .saturating_duration_since(now)
+                .min(Duration::from_millis(500));
             match tokio::time::timeout(wait, surv.client.read_buf(&mut surv.rx)).await {
                 Ok(r) => surv.absorb(r),
                 Err(_) => {}
@@ -826,23 +931,44 @@ fn judge(o: &Outcome, hb: &Ctx, rep: &mut Report, findings: &mut Vec<Finding>) {
     }
     rep.count(&format!("real:sessions:pair-{}", pair));
     rep.count(&format!("real:sessions:class-{}", p.class));
-    rep.count(if p.blind { "real:sessions:open-sent-blind" } else { "real:sessions:open-sent-after-daemons" });
-    let Some(t0) = o.writes.iter().find(|w| w.1 == Msg::Open && w.2).map(|w| w.0) else {
+    rep.count(if p.blind {
+        "real:sessions:open-sent-blind"
+    } else {
+        "real:sessions:open-sent-after-daemons"
+    });
+    let Some(t0) = o
+        .writes
+        .iter()
+        .find(|w| w.1 == Msg::Open && w.2)
+        .map(|w| w.0)
+    else {
         rep.count("real:unjudged:own-open-not-written");
         return;
     };
     // ---- what the daemon advertised
-    match o.reads.iter().find_map(|r| if let Seen::Open(x) = r.1 { Some(x) } else { None }) {
+    match o.reads.iter().find_map(|r| {
+        if let Seen::Open(x) = r.1 {
+            Some(x)
+        } else {
+            None
+        }
+    }) {
         Some(x) if x == p.local => rep.count("real:open-advertises-configured-hold"),
         Some(x) => fail(
             "C08/real/negotiated/open-advertises-other-holdtime".into(),
-            format!("configured hold time {} but the daemon's OPEN says {}", p.local, x),
+            format!(
+                "configured hold time {} but the daemon's OPEN says {}",
+                p.local, x
+            ),
         ),
         None => {}
     }
     let lag_session = hb.lag(o.t_start, o.t_end);
     // the first thing that ended the session, as the remote end saw it
-    let end = o.reads.iter().find(|r| matches!(r.1, Seen::Notification(..) | Seen::Eof | Seen::Reset));
+    let end = o
+        .reads
+        .iter()
+        .find(|r| matches!(r.1, Seen::Notification(..) | Seen::Eof | Seen::Reset));
     // messages of the daemon that prove a running keepalive timer / fill the gaps
     let from_daemon: Vec<Instant> = o
         .reads
@@ -859,20 +985,34 @@ fn judge(o: &Outcome, hb: &Ctx, rep: &mut Report, findings: &mut Vec<Finding>) {
         match end {
             Some((t, Seen::Notification(4, sc))) => fail(
                 "C08/real/zero/hold-timer-expired".into(),
-                format!("negotiated hold time 0 ({}), yet NOTIFICATION 4/{} was read {:.3}s after the own OPEN", pair, sc, secs(t0, *t)),
+                format!(
+                    "negotiated hold time 0 ({}), yet NOTIFICATION 4/{} was read {:.3}s after the own OPEN",
+                    pair,
+                    sc,
+                    secs(t0, *t)
+                ),
             ),
             Some((t, Seen::Eof)) => fail(
                 "C08/real/zero/closed".into(),
-                format!("negotiated hold time 0 ({}), yet the daemon closed the connection {:.3}s after the own OPEN", pair, secs(t0, *t)),
+                format!(
+                    "negotiated hold time 0 ({}), yet the daemon closed the connection {:.3}s after the own OPEN",
+                    pair,
+                    secs(t0, *t)
+                ),
             ),
-            Some((_, Seen::Notification(c, sc))) => rep.count(&format!("real:unjudged:other-notification-{}-{}", c, sc)),
+            Some((_, Seen::Notification(c, sc))) => {
+                rep.count(&format!("real:unjudged:other-notification-{}-{}", c, sc))
+            }
             Some(_) => rep.count("real:unjudged:reset"),
             None => rep.count("real:zero:stayed-up"),
         }
         if n_keepalives > 1 {
             fail(
                 "C08/real/zero/keepalive-timer-runs".into(),
-                format!("negotiated hold time 0 ({}), yet {} KEEPALIVEs were read (one answers the OPEN)", pair, n_keepalives),
+                format!(
+                    "negotiated hold time 0 ({}), yet {} KEEPALIVEs were read (one answers the OPEN)",
+                    pair, n_keepalives
+                ),
             );
         }
         return;
@@ -890,7 +1030,9 @@ fn judge(o: &Outcome, hb: &Ctx, rep: &mut Report, findings: &mut Vec<Finding>) {
             let hold_expiry_like = matches!(what, Seen::Notification(4, _) | Seen::Eof);
             if !hold_expiry_like {
                 match what {
-                    Seen::Notification(c, sc) => rep.count(&format!("real:unjudged:other-notification-{}-{}", c, sc)),
+                    Seen::Notification(c, sc) => {
+                        rep.count(&format!("real:unjudged:other-notification-{}-{}", c, sc))
+                    }
                     _ => rep.count("real:unjudged:reset"),
                 }
                 return;
@@ -914,7 +1056,13 @@ fn judge(o: &Outcome, hb: &Ctx, rep: &mut Report, findings: &mut Vec<Finding>) {
                         format!(
                             "pair {} (negotiated {}): the session was torn down ({:?}) only {:.3}s after the remote end started writing its last {} \
                              ({:.3}s after its OPEN); heartbeat lag in that interval {:?}",
-                            pair, h, what, secs(*tw, *tx), m.name(), secs(t0, *tx), lag
+                            pair,
+                            h,
+                            what,
+                            secs(*tw, *tx),
+                            m.name(),
+                            secs(t0, *tx),
+                            lag
                         ),
                     );
                 } else {
@@ -926,11 +1074,18 @@ fn judge(o: &Outcome, hb: &Ctx, rep: &mut Report, findings: &mut Vec<Finding>) {
                     Seen::Notification(4, 0) => rep.count("real:expiry:notification-4-0"),
                     Seen::Notification(4, sc) => fail(
                         "C08/real/notification/subcode".into(),
-                        format!("Hold Timer Expired NOTIFICATION with subcode {} (pair {})", sc, pair),
+                        format!(
+                            "Hold Timer Expired NOTIFICATION with subcode {} (pair {})",
+                            sc, pair
+                        ),
                     ),
                     _ => fail(
                         "C08/real/notification/closed-without-hold-timer-expired".into(),
-                        format!("pair {}: after {:.3}s of silence the daemon closed without a Hold Timer Expired NOTIFICATION", pair, secs(*tw, *tx)),
+                        format!(
+                            "pair {}: after {:.3}s of silence the daemon closed without a Hold Timer Expired NOTIFICATION",
+                            pair,
+                            secs(*tw, *tx)
+                        ),
                     ),
                 }
                 // expiry much later than the negotiated value (e.g. the larger of the two in force)
@@ -940,7 +1095,13 @@ fn judge(o: &Outcome, hb: &Ctx, rep: &mut Report, findings: &mut Vec<Finding>) {
                     if margin > 2.0 + 3.0 * l {
                         fail(
                             "C08/real/late-expiry".into(),
-                            format!("pair {} (negotiated {}): Hold Timer Expired came {:.3}s after the last message, heartbeat lag {:.3}s", pair, h, secs(*tw, *tx), l),
+                            format!(
+                                "pair {} (negotiated {}): Hold Timer Expired came {:.3}s after the last message, heartbeat lag {:.3}s",
+                                pair,
+                                h,
+                                secs(*tw, *tx),
+                                l
+                            ),
                         );
                     }
                 } else if margin > 2.0 {
@@ -956,7 +1117,10 @@ fn judge(o: &Outcome, hb: &Ctx, rep: &mut Report, findings: &mut Vec<Finding>) {
             match lag_session {
                 Some(l) if l < LAG_OK_LATE => fail(
                     "C08/real/no-teardown-after-silence".into(),
-                    format!("pair {} (negotiated {}): still up {:.1}s after the last message of the remote end; max heartbeat lag {:.3}s", pair, h, waited, l),
+                    format!(
+                        "pair {} (negotiated {}): still up {:.1}s after the last message of the remote end; max heartbeat lag {:.3}s",
+                        pair, h, waited, l
+                    ),
                 ),
                 _ => rep.count("real:unjudged:no-teardown-without-responsiveness-proof"),
             }
@@ -1003,11 +1167,23 @@ fn judge(o: &Outcome, hb: &Ctx, rep: &mut Report, findings: &mut Vec<Finding>) {
         if g > k + 1.2 {
             match hb.lag(a, b) {
                 Some(l) if l < LAG_OK_EARLY && g > k + 1.2 + 3.0 * l => fail(
-                    format!("C08/real/keepalive-gap/{}", if from_daemon.is_empty() { "none-at-all" } else { "too-long" }),
+                    format!(
+                        "C08/real/keepalive-gap/{}",
+                        if from_daemon.is_empty() {
+                            "none-at-all"
+                        } else {
+                            "too-long"
+                        }
+                    ),
                     format!(
                         "pair {} (negotiated {}, keepalive {}): {:.3}s without a KEEPALIVE/UPDATE from the daemon while the session was up \
                          ({} received in all); heartbeat lag {:.3}s",
-                        pair, h, k, g, from_daemon.len(), l
+                        pair,
+                        h,
+                        k,
+                        g,
+                        from_daemon.len(),
+                        l
                     ),
                 ),
                 _ => rep.count("real:unjudged:keepalive-gap-without-responsiveness-proof"),
@@ -1021,7 +1197,14 @@ fn witness(o: &Outcome, hb: &Ctx) -> Json {
     let t0 = o.t_start;
     let mut ev: Vec<(f64, String)> = Vec::new();
     for (t, m, ok) in &o.writes {
-        ev.push((secs(t0, *t), format!("remote writes {}{}", m.name(), if *ok { "" } else { " (failed)" })));
+        ev.push((
+            secs(t0, *t),
+            format!(
+                "remote writes {}{}",
+                m.name(),
+                if *ok { "" } else { " (failed)" }
+            ),
+        ));
     }
     for (t, s) in &o.reads {
         ev.push((secs(t0, *t), format!("remote reads {:?}", s)));
@@ -1035,9 +1218,18 @@ fn witness(o: &Outcome, hb: &Ctx) -> Json {
         ("role", Json::s(format!("{:?}", p.role))),
         ("class", Json::s(p.class)),
         ("open_sent_blind", Json::Bool(p.blind)),
-        ("planned_sends_ms", Json::strs(p.sends.iter().map(|(t, m)| format!("{}:{}", t, m.name())))),
-        ("events_s", Json::strs(ev.into_iter().map(|(t, s)| format!("{:.3} {}", t, s)))),
-        ("max_heartbeat_lag_s", Json::Num(hb.lag(o.t_start, o.t_end).unwrap_or(-1.0))),
+        (
+            "planned_sends_ms",
+            Json::strs(p.sends.iter().map(|(t, m)| format!("{}:{}", t, m.name()))),
+        ),
+        (
+            "events_s",
+            Json::strs(ev.into_iter().map(|(t, s)| format!("{:.3} {}", t, s))),
+        ),
+        (
+            "max_heartbeat_lag_s",
+            Json::Num(hb.lag(o.t_start, o.t_end).unwrap_or(-1.0)),
+        ),
     ])
 }
 
@@ -1073,7 +1265,11 @@ fn run() {
         p.local = 0;
         p.remote = [0u16, 30, 3][i as usize % 3];
         p.class = "zero";
-        p.sends = vec![(0, Msg::Open), (100, Msg::Keepalive), (100_000, Msg::Keepalive)];
+        p.sends = vec![
+            (0, Msg::Open),
+            (100, Msg::Keepalive),
+            (100_000, Msg::Keepalive),
+        ];
         p.observe_ms = 250_000;
         plans.push(p);
     }
@@ -1085,7 +1281,9 @@ fn run() {
         hb_harness: Heartbeat::start(harness_rt.handle(), 4),
     });
     let n_coll = params.get_u64("collisions", if thorough { 150 } else { 60 });
-    let coll_plans: Vec<CollPlan> = (0..n_coll).map(|i| make_coll_plan(&mut rng, 1_000_000 + i)).collect();
+    let coll_plans: Vec<CollPlan> = (0..n_coll)
+        .map(|i| make_coll_plan(&mut rng, 1_000_000 + i))
+        .collect();
     let n = n + n_coll;
     let (outcomes, coll_counts) = harness_rt.block_on(async {
         let mut handles = Vec::new();
@@ -1094,7 +1292,11 @@ fn run() {
         }
         let mut coll_handles = Vec::new();
         for p in coll_plans {
-            coll_handles.push(tokio::spawn(collision_session(p, !thorough, ctx.daemon.clone())));
+            coll_handles.push(tokio::spawn(collision_session(
+                p,
+                !thorough,
+                ctx.daemon.clone(),
+            )));
         }
         let mut outs = Vec::new();
         let mut coll_counts: Vec<&'static str> = Vec::new();
@@ -1127,18 +1329,33 @@ fn run() {
     ctx.hb_harness.stop.store(true, Ordering::Relaxed);
     rep.count_n("real:sessions-planned", n);
     rep.count_n("real:sessions-finished", outcomes.len() as u64);
-    rep.max("real:heartbeat-lag-ms:daemon-runtime", (ctx.hb_daemon.overall() * 1000.0) as u64);
-    rep.max("real:heartbeat-lag-ms:remote-runtime", (ctx.hb_harness.overall() * 1000.0) as u64);
+    rep.max(
+        "real:heartbeat-lag-ms:daemon-runtime",
+        (ctx.hb_daemon.overall() * 1000.0) as u64,
+    );
+    rep.max(
+        "real:heartbeat-lag-ms:remote-runtime",
+        (ctx.hb_harness.overall() * 1000.0) as u64,
+    );
     // ---- a daemon that starves its own runtime: its timers cannot run at all
     let daemon_silence = ctx.hb_daemon.longest_silence(t_begin, t_finish);
     let harness_silence = ctx.hb_harness.longest_silence(t_begin, t_finish);
-    rep.max("real:heartbeat-silence-ms:daemon-runtime", (daemon_silence * 1000.0) as u64);
-    rep.max("real:heartbeat-silence-ms:remote-runtime", (harness_silence * 1000.0) as u64);
+    rep.max(
+        "real:heartbeat-silence-ms:daemon-runtime",
+        (daemon_silence * 1000.0) as u64,
+    );
+    rep.max(
+        "real:heartbeat-silence-ms:remote-runtime",
+        (harness_silence * 1000.0) as u64,
+    );
     let mut starved = false;
     if daemon_silence > 8.0 {
         if harness_silence < 0.5 && ctx.hb_harness.overall() < 0.5 {
             starved = true;
-            let got_open = outcomes.iter().filter(|o| o.reads.iter().any(|r| matches!(r.1, Seen::Open(_)))).count();
+            let got_open = outcomes
+                .iter()
+                .filter(|o| o.reads.iter().any(|r| matches!(r.1, Seen::Open(_))))
+                .count();
             rep.violation(
                 "C08/real/session-tasks-starve-the-runtime",
                 &format!(
@@ -1174,7 +1391,19 @@ fn run() {
         if o.aborted.is_none() {
             let key = format!(
                 "{:?}",
-                (o.plan.local, o.plan.remote, o.plan.role, o.plan.blind, &o.plan.sends, o.plan.class, if o.plan.sends.is_empty() { o.plan.id } else { 0 })
+                (
+                    o.plan.local,
+                    o.plan.remote,
+                    o.plan.role,
+                    o.plan.blind,
+                    &o.plan.sends,
+                    o.plan.class,
+                    if o.plan.sends.is_empty() {
+                        o.plan.id
+                    } else {
+                        0
+                    }
+                )
             );
             rep.nontrivial(fnv64(key.as_bytes()));
         }
